@@ -117,10 +117,13 @@ type c07Node struct {
 	lastCR   *schedulingv1alpha1.Device
 	gpuMem   int64
 	typeGone map[schedulingv1alpha1.DeviceType]bool
-	// memBytes: the case also uses GPU memory requests in bytes; memResize: inventory updates may change the
-	// memory size a GPU reports. Each is kept to a fixed share of the cases because "amount checked in the
-	// requested unit (bytes or ratio) only, booked in both" is a family of its own (see the C07 report); the
-	// other cases stay free of it and keep exercising everything else.
+	// memBytes: the case also uses GPU memory requests in bytes. It is kept to a fixed share of the cases
+	// because "GPU memory checked in the requested unit (bytes or ratio) only, booked in both" is a known
+	// finding with its own signature (c07MixedUnits); the other cases stay free of it.
+	// memResize: inventory updates may change the memory size a GPU reports - but only while no live pod
+	// holds that GPU (a card swapped during maintenance). A GPU whose memory size changes under a running
+	// pod does not exist: the size is a hardware constant that koordlet reads from the driver, a MIG
+	// re-partition needs an idle GPU, and after a card swap / reboot no pod of the old card is left.
 	memBytes, memResize bool
 }
 
@@ -308,7 +311,7 @@ func c07CopyAllocs(a apiext.DeviceAllocations) apiext.DeviceAllocations {
 }
 
 // mutate applies 1-3 random changes to what the node reports; returns a description.
-func (n *c07Node) mutate(r *kit.Rand) string {
+func (n *c07Node) mutate(r *kit.Rand, held func(d *c07Dev) bool) string {
 	var what []string
 	for i, k := 0, r.Range(1, 3); i < k; i++ {
 		if len(n.devs) == 0 {
@@ -351,12 +354,13 @@ func (n *c07Node) mutate(r *kit.Rand) string {
 			// hard-codes both), only its memory size can differ; generic devices may report any amount.
 			nr := d.base.DeepCopy()
 			if d.typ == c07GPU {
-				if !n.memResize {
+				if !n.memResize || held(d) {
 					d.health = !d.health
 					what = append(what, fmt.Sprintf("%s%d health=%v", d.typ, d.minor, d.health))
 					break
 				}
 				nr[apiext.ResourceGPUMemory] = c07QB(kit.Pick(r, c07MemPool))
+				d.base = nr.DeepCopy() // the new card; "restored"/"back" keep this size
 			} else {
 				for name := range nr {
 					nr[name] = c07Q(int64(kit.Pick(r, []int{1, 50, 99, 100, 100})))
@@ -395,6 +399,7 @@ type c07Want struct {
 }
 
 type c07Shape struct {
+	memUnit  string // unit of GPU memory the request names: "bytes", "ratio" (whole GPUs name ratio 100), "" without GPU
 	class    string
 	requests corev1.ResourceList
 	want     map[schedulingv1alpha1.DeviceType]*c07Want
@@ -421,6 +426,7 @@ func c07GPUShape(r *kit.Rand, n *c07Node, sh *c07Shape) {
 	whole := corev1.ResourceList{apiext.ResourceGPUCore: c07Q(100), apiext.ResourceGPUMemoryRatio: c07Q(100)}
 	w := &c07Want{count: 1}
 	sh.want[c07GPU] = w
+	sh.memUnit = "ratio"
 	wb := 0
 	if n.memBytes {
 		wb = 14
@@ -469,6 +475,7 @@ func c07GPUShape(r *kit.Rand, n *c07Node, sh *c07Shape) {
 		sh.requests[apiext.ResourceGPUMemory] = c07QB(b)
 		w.per = corev1.ResourceList{apiext.ResourceGPUMemory: c07QB(b)}
 		sh.class += "mem-bytes"
+		sh.memUnit = "bytes"
 		if k == 8 {
 			cr := c07Pct(r)
 			sh.class += "+core"
@@ -545,6 +552,7 @@ func c07GenShape(r *kit.Rand, n *c07Node) *c07Shape {
 		case k == 0 && hasGPU:
 			scope := kit.Pick(r, []apiext.DeviceTopologyScope{apiext.DeviceTopologyScopePCIe, apiext.DeviceTopologyScopeNUMANode})
 			sh.class = "x-gpu-scope-" + string(scope)
+			sh.memUnit = "ratio"
 			sh.requests[apiext.ResourceNvidiaGPU] = c07Q(cnt)
 			sh.want[c07GPU] = &c07Want{count: int(cnt), per: whole}
 			sh.hints[c07GPU] = &apiext.DeviceHint{RequiredTopologyScope: scope}
@@ -555,6 +563,7 @@ func c07GenShape(r *kit.Rand, n *c07Node) *c07Shape {
 			sh.hints[c07RDMA] = &apiext.DeviceHint{VFSelector: &metav1.LabelSelector{MatchLabels: map[string]string{"type": "general"}}}
 		case k == 2 && hasGPU && hasRDMA:
 			sh.class = "x-joint"
+			sh.memUnit = "ratio"
 			sh.requests[apiext.ResourceNvidiaGPU] = c07Q(cnt)
 			sh.want[c07GPU] = &c07Want{count: int(cnt), per: whole}
 			p := c07Pct(r)
@@ -605,6 +614,8 @@ type c07Pod struct {
 	state      int
 	node       *c07Node
 	alloc      apiext.DeviceAllocations // the allocation the pod holds while reserved/bound (and keeps in its annotation afterwards)
+	memUnit    string                   // unit of GPU memory its request named
+	gpuPer     corev1.ResourceList      // its per-GPU request
 	unassigned *corev1.Pod
 	assigned   *corev1.Pod
 	terminated *corev1.Pod
@@ -729,8 +740,89 @@ func c07LiveUsed(pods []*c07Pod, n *c07Node) map[c07Key]int64 {
 	return want
 }
 
-// c07Check is the ledger oracle, evaluated for one node after every operation.
-func c07Check(c *kit.Case, where string, n *c07Node, pods []*c07Pod, pre, post *c07Snap) {
+// c07MixedUnits decides whether "used grew above total" on the GPU-memory resource k.r of one GPU is the
+// known defect "GPU memory is checked in the unit the request names (bytes or ratio) but booked in both, the
+// other unit being derived by a rounding conversion" - and nothing else. All of the following must hold:
+//  1. the operation granted a request on this node, and that request named the OTHER unit than the one
+//     that is now over-committed (the unit the allocator checked cannot overflow through this defect);
+//  2. the GPU is held by at least one allocation whose request named bytes and at least one whose request
+//     named ratio (whole-GPU requests name ratio 100);
+//  3. every allocation on the GPU is booked exactly as the defect's reading predicts: the amount of the unit
+//     its request named equals its per-GPU request, the amount of the other unit lies between the
+//     conversion rounded down and rounded up at the GPU's memory size (which is constant while held);
+//  4. counting every allocation only in the unit its request named, the GPU is over-committed in neither
+//     unit - the excess consists of derived amounts only, no grant took more than its own unit had.
+// Anything else (a grant on a device without enough free, amounts that are not the request, a wrong
+// conversion, usage that was never released ...) keeps the generic signature.
+func c07MixedUnits(n *c07Node, pods []*c07Pod, k c07Key, grantUnit string) (bool, string) {
+	if k.t != c07GPU || grantUnit == "" {
+		return false, "no GPU grant in this operation"
+	}
+	overUnit := ""
+	switch k.r {
+	case apiext.ResourceGPUMemory:
+		overUnit = "bytes"
+	case apiext.ResourceGPUMemoryRatio:
+		overUnit = "ratio"
+	default:
+		return false, "not a GPU memory resource"
+	}
+	if grantUnit == overUnit {
+		return false, "the granted request named the over-committed unit itself"
+	}
+	inv, _ := n.inventory()
+	memTotal := inv[c07Key{c07GPU, k.minor, apiext.ResourceGPUMemory}] / 1000
+	ratioTotal := inv[c07Key{c07GPU, k.minor, apiext.ResourceGPUMemoryRatio}] / 1000
+	if memTotal <= 0 {
+		return false, "the GPU reports no memory"
+	}
+	var bytesNamed, ratioNamed int64
+	nBytes, nRatio := 0, 0
+	for _, p := range pods {
+		if !p.live() || p.node != n {
+			continue
+		}
+		for _, a := range p.alloc[c07GPU] {
+			if int(a.Minor) != k.minor {
+				continue
+			}
+			gotB, gotR := a.Resources[apiext.ResourceGPUMemory], a.Resources[apiext.ResourceGPUMemoryRatio]
+			switch p.memUnit {
+			case "bytes":
+				want := p.gpuPer[apiext.ResourceGPUMemory]
+				lo := want.Value() * 100 / memTotal
+				hi := (want.Value()*100 + memTotal - 1) / memTotal
+				if gotB.Cmp(want) != 0 || gotR.Value() < lo || gotR.Value() > hi {
+					return false, fmt.Sprintf("pod %s is not booked as request %s with a rounded ratio: %s", p.name, c07RL(p.gpuPer), c07RL(a.Resources))
+				}
+				bytesNamed += want.Value()
+				nBytes++
+			case "ratio":
+				want := p.gpuPer[apiext.ResourceGPUMemoryRatio]
+				lo := want.Value() * memTotal / 100
+				hi := (want.Value()*memTotal + 99) / 100
+				if gotR.Cmp(want) != 0 || gotB.Value() < lo || gotB.Value() > hi {
+					return false, fmt.Sprintf("pod %s is not booked as request %s with rounded bytes: %s", p.name, c07RL(p.gpuPer), c07RL(a.Resources))
+				}
+				ratioNamed += want.Value()
+				nRatio++
+			default:
+				return false, "holder without a GPU memory unit"
+			}
+		}
+	}
+	if nBytes == 0 || nRatio == 0 {
+		return false, "the holders' requests all named the same unit"
+	}
+	if bytesNamed > memTotal || ratioNamed > ratioTotal {
+		return false, "over-committed even when every allocation counts only in the unit its request named"
+	}
+	return true, fmt.Sprintf("%d holder(s) asked in bytes (sum %d of %d), %d in ratio (sum %d of %d)", nBytes, bytesNamed, memTotal, nRatio, ratioNamed, ratioTotal)
+}
+
+// c07Check is the ledger oracle, evaluated for one node after every operation. grantUnit is the unit of GPU
+// memory named by the request this operation granted on the node ("" if it granted none).
+func c07Check(c *kit.Case, where string, n *c07Node, pods []*c07Pod, pre, post *c07Snap, grantUnit string) {
 	inv, _ := n.inventory()
 	for _, k := range c07Keys(inv, post.total) {
 		if inv[k] != post.total[k] {
@@ -760,12 +852,22 @@ func c07Check(c *kit.Case, where string, n *c07Node, pods []*c07Pod, pre, post *
 		// unavoidable only if this operation did not add usage: the device was over-committed by an
 		// inventory change (now or earlier) and usage has not grown since.
 		if post.used[k] > pre.used[k] {
-			c.Fail("C07/ledger/used-exceeds-total/"+c07ResSig(k.r), "%s: node %s %s minor %d %s: used grew from %d to %d (milli) although the device's total is %d", where, n.name, k.t, k.minor, k.r, pre.used[k], post.used[k], post.total[k])
+			msg := fmt.Sprintf("%s: node %s %s minor %d %s: used grew from %d to %d (milli) although the device's total is %d", where, n.name, k.t, k.minor, k.r, pre.used[k], post.used[k], post.total[k])
+			if ok, why := c07MixedUnits(n, pods, k, grantUnit); ok {
+				// the known unit-mix defect and nothing else: reported under its own signature, the case goes on
+				c.Report("C07/ledger/used-exceeds-total/"+c07ResSig(k.r)+"/mixed-bytes-and-ratio-requests", "%s; %s", msg, why)
+				c.Count("overcommit_attributed_to_mixed_memory_units", 1)
+			} else {
+				if k.r == apiext.ResourceGPUMemory || k.r == apiext.ResourceGPUMemoryRatio {
+					msg += " (not the mixed-units defect: " + why + ")"
+				}
+				c.Fail("C07/ledger/used-exceeds-total/"+c07ResSig(k.r), "%s", msg)
+			}
 		}
 		over++
 	}
 	if over > 0 {
-		c.Count("states_overcommitted_by_inventory_change", 1)
+		c.Count("states_overcommitted_without_growth_or_attributed", 1)
 	}
 	// the per-pod allocation set mirrors the live pods
 	for _, t := range c07Types {
@@ -893,11 +995,33 @@ func TestVerifC07Ledger(t *testing.T) {
 			for i := range pods {
 				pods[i] = &c07Pod{name: fmt.Sprintf("p%d", i)}
 			}
+			var grantNode *c07Node // set by allocate for the check that follows it
+			grantUnit := ""
 			checkAll := func(where string) {
 				for _, n := range nodes {
 					post := c07Observe(c, cache, n.name)
-					c07Check(c, where, n, pods, snaps[n.name], post)
+					gu := ""
+					if n == grantNode {
+						gu = grantUnit
+					}
+					c07Check(c, where, n, pods, snaps[n.name], post, gu)
 					snaps[n.name] = post
+				}
+				grantNode, grantUnit = nil, ""
+			}
+			heldDev := func(n *c07Node) func(d *c07Dev) bool {
+				return func(d *c07Dev) bool {
+					for _, p := range pods {
+						if !p.live() || p.node != n {
+							continue
+						}
+						for _, a := range p.alloc[d.typ] {
+							if a.Minor == d.minor {
+								return true
+							}
+						}
+					}
+					return false
 				}
 			}
 			for _, n := range nodes {
@@ -1172,6 +1296,11 @@ func TestVerifC07Ledger(t *testing.T) {
 					}
 				}
 				p.alloc = allocs
+				p.memUnit, p.gpuPer = sh.memUnit, nil
+				if w := sh.want[c07GPU]; w != nil {
+					p.gpuPer = w.per
+				}
+				grantNode, grantUnit = n, sh.memUnit
 				p.node = n
 				if restart {
 					p.state = c07Bound
@@ -1376,7 +1505,7 @@ func TestVerifC07Ledger(t *testing.T) {
 					held := liveOn(n)
 					switch {
 					case !n.crLive:
-						what := n.mutate(r)
+						what := n.mutate(r, heldDev(n))
 						n.crLive = true
 						n.lastCR = n.buildCR()
 						cache.onDeviceAdd(n.lastCR.DeepCopy())
@@ -1388,7 +1517,7 @@ func TestVerifC07Ledger(t *testing.T) {
 						c.Op("inventory %s: Device object deleted", n.name)
 						c.Count("op_inventory_delete", 1)
 					default:
-						what := n.mutate(r)
+						what := n.mutate(r, heldDev(n))
 						cr := n.buildCR()
 						cache.onDeviceUpdate(n.lastCR.DeepCopy(), cr.DeepCopy())
 						n.lastCR = cr
